@@ -384,14 +384,29 @@ C07_scot_prior(T) == IF T.rule # "scotland" THEN {} ELSE
 (* C08 -- Meek/Warren iterations *)
 C08_sum(T) == IF T.fam # "meek" THEN {} ELSE
   {k \in 1 .. NA(T) : MeekPost(T, T.acts[k]) /\ TotalAt(T, T.acts[k]) # T.n * T.S /\ ~(T.acts[k].tag = "begin" /\ Len(T.eq) > 0)}
-C08_kf(T) == IF T.fam # "meek" THEN {} ELSE
-  {k \in 1 .. NA(T) : LET a == T.acts[k] IN
-     /\ MeekPost(T, a)
-     /\ \E c \in Cand(T) : ~T.wd[c] /\
-          LET st == IF a.tag = "defeat" /\ c = a.subj THEN "H" ELSE a.st[c] IN
-          \/ (st = "H" /\ a.kf[c] # T.S)
-          \/ (st = "D" /\ a.kf[c] # 0)
-          \/ (st = "E" /\ ~(0 < a.kf[c] /\ a.kf[c] <= T.S))}
+KfBadAt(T, a, c) ==
+  ~T.wd[c] /\ LET st == IF a.tag = "defeat" /\ c = a.subj THEN "H" ELSE a.st[c] IN
+              \/ (st = "H" /\ a.kf[c] # T.S)
+              \/ (st = "D" /\ a.kf[c] # 0)
+              \/ (st = "E" /\ ~(0 < a.kf[c] /\ a.kf[c] <= T.S))
+(* F23 (known finding): D.8 / B.2.f `kf = kf * quota / vote, rounded up' applied to an elected candidate whose vote has    *)
+(* fallen below the quota (rounding) yields a keep factor above 1.  The matcher identifies the call site: the value is      *)
+(* exactly what the update formula gives from the preceding snapshot, where the vote was below quota (or kf already > 1),  *)
+(* or it is carried unchanged from the preceding action.                                                                    *)
+KfRounds(T) == T.kind # "guarded" \/ T.geps = 1
+UpMulDiv(a, b, c) == LET qr == MulDivQR(a, b, c) IN qr[1] + (IF qr[2] # 0 THEN 1 ELSE 0)
+KfUpdate(T, kf, q, v) == IF KfRounds(T) THEN UpMulDiv(UpMulDiv(kf, q, T.S), T.S, v) ELSE MulDivFloor(MulDivFloor(kf, q, T.S), T.S, v)
+F23From(T, X, kfnew, c) == T.kind # "rational" /\ X.vote[c] > 0 /\ (X.vote[c] < X.quota \/ X.kf[c] > T.S)
+                           /\ kfnew = KfUpdate(T, X.kf[c], X.quota, X.vote[c])
+F23Explains(T, k, c) ==
+  LET a == T.acts[k] IN
+  /\ a.st[c] = "E" /\ a.kf[c] > T.S
+  /\ IF a.iters # <<>> THEN F23From(T, a.iters[Len(a.iters)], a.kf[c], c)
+     ELSE k > 1 /\ T.acts[k - 1].kf[c] = a.kf[c]
+C08_kf_any(T) == IF T.fam # "meek" THEN {} ELSE
+  {k \in 1 .. NA(T) : MeekPost(T, T.acts[k]) /\ \E c \in Cand(T) : KfBadAt(T, T.acts[k], c)}
+C08_kf(T) == {k \in C08_kf_any(T) : \E c \in Cand(T) : KfBadAt(T, T.acts[k], c) /\ ~F23Explains(T, k, c)}
+C08_kf_f23(T) == C08_kf_any(T) \ C08_kf(T)
 C08_nonneg(T) == IF T.fam # "meek" THEN {} ELSE
   {k \in 1 .. NA(T) : LET a == T.acts[k] IN a.residual < 0 \/ \E c \in Cand(T) : a.vote[c] < 0}
 C08_omega(T) == IF T.fam # "meek" THEN {} ELSE
@@ -409,6 +424,10 @@ C08_order(T) == IF T.rule \notin {"meek", "warren"} THEN {} ELSE
        /\ IF T.acts[k].mc = "defeat_certain" THEN b.mc = "iterate_batch"
           ELSE IF T.acts[k].mc = "defeat_omega" THEN b.mc = "iterate_omega"
           ELSE T.acts[k].mc = "defeat_stable" /\ b.mc = "iterate_stable")}
+IterF23(T, k, i, c) == LET its == T.acts[k].iters IN
+  IF i > 1 THEN F23From(T, its[i - 1], its[i].kf[c], c) ELSE k > 1 /\ T.acts[k - 1].kf[c] = its[1].kf[c]
+C08_iters_f23(T) == IF T.fam # "meek" THEN {} ELSE
+  {k \in 1 .. NA(T) : \E i \in DOMAIN T.acts[k].iters : \E c \in Cand(T) : T.acts[k].iters[i].kf[c] > T.S /\ IterF23(T, k, i, c)}
 (* internal iterations (V.div snapshots): conservation, keep factors in range, surplus decreasing *)
 C08_iters(T) == IF T.fam # "meek" THEN {} ELSE
   {k \in 1 .. NA(T) : \E i \in DOMAIN T.acts[k].iters : LET it == T.acts[k].iters[i] IN
@@ -417,7 +436,8 @@ C08_iters(T) == IF T.fam # "meek" THEN {} ELSE
      \/ it.quota # QuotaWant(T, it.votes)
      \/ ~LT(T, T.omega, it.surplus) /\ T.rule # "meek-prf"
      \/ (T.rule = "meek-prf" /\ it.surplus < T.omega)
-     \/ \E c \in Cand(T) : it.kf[c] < 0 \/ it.kf[c] > T.S \/ it.vote[c] < 0
+     \/ \E c \in Cand(T) : it.kf[c] < 0 \/ it.vote[c] < 0
+     \/ \E c \in Cand(T) : it.kf[c] > T.S /\ ~IterF23(T, k, i, c)
      \/ (i > 1 /\ ~LT(T, it.surplus, T.acts[k].iters[i - 1].surplus))}
 
 ----------------------------------------------------------------------------
@@ -479,7 +499,7 @@ FailC07(T) == Tag("C07", "lowest", C07_lowest(T)) \cup Tag("C07", "batch", C07_b
               Tag("C07", "zero", C07_zero(T)) \cup Tag("C07", "highest", C07_highest(T)) \cup
               Tag("C07", "tie_named", C07_tie_named(T)) \cup Tag("C07", "ties", C07_ties(T)) \cup
               Tag("C07", "scot_prior", C07_scot_prior(T))
-FailC08(T) == Tag("C08", "sum", C08_sum(T)) \cup Tag("C08", "kf", C08_kf(T)) \cup
+FailC08(T) == Tag("C08", "sum", C08_sum(T)) \cup Tag("C08", "kf", C08_kf(T)) \cup Tag("C08", "KNOWN_F23", C08_kf_f23(T) \cup C08_iters_f23(T)) \cup
               Tag("C08", "nonneg", C08_nonneg(T)) \cup Tag("C08", "omega", C08_omega(T)) \cup
               Tag("C08", "order", C08_order(T)) \cup Tag("C08", "iters", C08_iters(T))
 FailC09(T) == Tag("C09", "moves", C09_moves(T)) \cup Tag("C09", "over", C09_over(T)) \cup
